@@ -245,7 +245,7 @@ def run(tier):
                                    "`%s` constructs an Order whose id is not a fresh read of next_order_id followed by an increment" % f.path)
 
     # R4 who may touch the ledger
-    ck.rule("R4.ledger-writers", "only the designated functions mutate / mutably borrow the ledger fields", floor=10)
+    ck.rule("R4.ledger-writers", "only the designated functions mutate / mutably borrow the ledger fields", floor=5)
     for f in fx.fns.values():
         touched = set()
         for bi, kind, place, sp in M.all_places(f):
